@@ -410,17 +410,24 @@ def slow_subscriber(run, rng):
     nwrites = rng.choice([2, 3, 4, 6])
     # one of the subscriptions is cancelled in the middle of it: what waits in the queue for it is not sent any more
     cancel = (rng.randrange(1, nwrites), rng.choice(keys)) if rng.random() < 0.5 else None
+    # ... or renewed for one more second only: it runs out while notifications for it wait
+    runs_out = bool(cancel) and rng.random() < 0.4
     cancelled_at = None
     for k in range(nwrites):
         if cancel and k == cancel[0]:
             i_, proc_, conf_ = cancel[1]
             req = SubscribeCOVRequest(subscriberProcessIdentifier=proc_, monitoredObjectIdentifier=oid, destination=w.dev.address)
+            if runs_out:
+                req.issueConfirmedNotifications = conf_
+                req.lifetime = 1
             ack = w.subs[i_].call(req)
             w.hist.append(("cancel", i_, proc_, oid, round(CLOCK.now - CLOCK.START, 2)))
             run.count("cancels")
             if not isinstance(ack, SimpleAckPDU):
                 return w.fail("cancellation-not-acknowledged", answer=type(ack).__name__)
-            cancelled_at = (CLOCK.now, len(written))
+            # (a subscription of one second is over after one second; a notification up to a second later is tolerated like the
+            #  remaining-time field is)
+            cancelled_at = (CLOCK.now + (2.0 if runs_out else 0.0), len(written))
         if o["kind"] == "analog":
             cur = f32(cur + rng.choice([-3, 2, 4]) * o["inc"])
         elif o["kind"] == "binary":
@@ -444,9 +451,12 @@ def slow_subscriber(run, rng):
         detail = dict(subscriber=i, proc=proc, confirmed=confirmed, written=repr(written), notified=repr(vals), unanswered_for=delay)
         if cancel and (i, proc, confirmed) == cancel[1]:
             late = [round(n["t"] - cancelled_at[0], 2) for j, n in got if j == i and n["proc"] == proc and n["obj"] == oid and n["t"] > cancelled_at[0] + 1e-9]
-            run.count("cancellations_with_notifications_waiting")
+            run.count("cancellations_with_notifications_waiting" if not runs_out else "lifetimes_running_out_with_notifications_waiting")
             if late:
-                return w.fail("notification-after-cancellation/slow-subscriber", seconds_after_the_acknowledged_cancellation=late, **detail)
+                return w.fail("notification-after-cancellation/slow-subscriber" if not runs_out else "notification-after-lifetime-elapsed/slow-subscriber",
+                              seconds_after=late, **detail)
+            if runs_out:
+                continue            # (the renewal is answered with a notification of its own: only lateness is judged here)
             it = iter(written[:cancelled_at[1]])
             if not all(any(x == y for y in it) for x in vals):
                 return w.fail("notifications-out-of-order/slow-subscriber", **detail)
